@@ -176,7 +176,28 @@ def bind(env, point):
     return out, n
 
 
+_P = None       # {'k': slot to perturb, 'i': running slot counter, 'delta': relative perturbation} during sensitivity()
+
+
 def _ev(t, b, n):
+    r = _ev0(t, b, n)
+    p = _P
+    if p is not None and t[0] not in ('var', 'idx', 'vidx', 'join'):
+        # every element of every operator result is one slot; slot k gets its value (not its tangent) scaled by 1+delta
+        if isinstance(r, list):
+            for j, e in enumerate(r):
+                if p['i'] == p['k']:
+                    r = list(r)
+                    r[j] = Dual(e.v * (1.0 + p['delta']), e.d)
+                p['i'] += 1
+        else:
+            if p['i'] == p['k']:
+                r = Dual(r.v * (1.0 + p['delta']), r.d)
+            p['i'] += 1
+    return r
+
+
+def _ev0(t, b, n):
     k = t[0]
     if k == 'var':
         return b[t[1]]
@@ -220,6 +241,58 @@ def _ev(t, b, n):
 def evaluate(tree, env, point):
     b, n = bind(env, point)
     return _ev(tree, b, n)
+
+
+def sensitivity(tree, env, point, delta=1e-6):
+    """First-order conditioning of the exact value and derivative with respect to a relative perturbation of every
+    intermediate result: returns (Sv, Sd) with Sv[r] = sum_i |t_i df_r/dt_i| and Sd[r][j] = sum_i |t_i d(df_r/dx_j)/dt_i|
+    (rows r of a vector-valued tree; one row for a scalar one), or None when a perturbed run leaves the smooth domain.
+    unit_roundoff * Sd bounds, to first order, the error any evaluation of the derivative in that arithmetic commits."""
+    global _P
+    base = evaluate(tree, env, point)
+    rows = base if isinstance(base, list) else [base]
+    _P = {'k': -1, 'i': 0, 'delta': delta}
+    try:
+        evaluate(tree, env, point)
+        slots = _P['i']
+        sv = [0.0] * len(rows)
+        sd = [[0.0] * len(rows[0].d) for _ in rows]
+        for k in range(slots):
+            _P = {'k': k, 'i': 0, 'delta': delta}
+            try:
+                r = evaluate(tree, env, point)
+            except NotSmooth:
+                return None
+            rr = r if isinstance(r, list) else [r]
+            for a, (x, y) in enumerate(zip(rr, rows)):
+                sv[a] += abs(x.v - y.v) / delta
+                for j in range(len(y.d)):
+                    sd[a][j] += abs(x.d[j] - y.d[j]) / delta
+    finally:
+        _P = None
+    return sv, sd
+
+
+def ideal_central_difference(tree, env, point, h):
+    """C[r][j] = (f_r(p + h e_j) - f_r(p - h e_j)) / 2h with the reference's own double-precision values: what a faultless
+    central difference with step h yields (truncation h^2 f'''/6 and rounding included).  None outside the domain."""
+    base = evaluate(tree, env, point)
+    rows = base if isinstance(base, list) else [base]
+    n = len(point)
+    out = [[0.0] * n for _ in rows]
+    for j in range(n):
+        side = []
+        for s in (-h, h):
+            q = list(point)
+            q[j] += s
+            try:
+                r = evaluate(tree, env, q)
+            except NotSmooth:
+                return None
+            side.append(r if isinstance(r, list) else [r])
+        for a in range(len(rows)):
+            out[a][j] = (side[1][a].v - side[0][a].v) / (2.0 * h)
+    return out
 
 
 def value_only(tree, env, point):
